@@ -202,6 +202,17 @@ def gen_ops(rng, model, items, route):
       s = rng.choice(["Pair", "Tabulation", "Species", "EAM-Embed", "Nowhere"])
       k = rng.choice(["Qq-Qq", "missing", "Qq.atomic_mass", "Qq"])
       ops.append({"op": rng.choice(["override", "remove"]), "section": s, "key": k, "value": "as.constant 1"})
+  # the option written the way the line looks in a file: 'SECTION:key = value' - blanks around the value mean as little
+  # as they do in the file; and a value a file could not hold either (a stray '$') is a configuration error, not a crash
+  for o in ops:
+    if o["op"] in ("override", "add") and o.get("value") is not None and not o["section"].startswith("Table-Form"):
+      c = rng.random()
+      if c < 0.12:
+        o["value"] = rng.choice([" ", "  ", "\t"]) + o["value"]
+      elif c < 0.2:
+        o["value"] = o["value"] + rng.choice([" ", "   "])
+      elif c < 0.23:
+        o["value"] = o["value"] + rng.choice([" $", " $5", " ${", " ${nosuch}"])
   return ops
 
 
@@ -224,7 +235,7 @@ def gen_cases(rng, tier):
           alt = k_.replace("->", rng.choice([" ->", "-> ", " -> "]))
         a, b = (k_, alt) if rng.random() < 0.5 else (alt, k_)
         ops = [{"op": "override", "section": s_, "key": kk, "value": "as.constant %s" % spec.fnum(spec.rfloat(rng, 0.5, 9.0))} for kk in (a, b, a)]
-    case = {"model": m, "ops": ops, "route": route, "listing": (i % 2 == 1 and route != "api")}
+    case = {"model": m, "ops": ops, "route": route, "listing": (i % 2 == 1 and route != "api"), "options_first": i % 6 == 1}
     if route == "main" and i % 5 == 2:
       # feature interaction: the same invocation also filters species and the file uses [Variables] placeholders
       sp = []
@@ -533,6 +544,15 @@ def run_case(case, ctx):
     got = outcome(runner(["@IN", "@OUT"] + cli_args(ops), text))
   ctx.count("differentials")
   mech = "section_name_with_colon_on_cli" if (colon and route != "api") else "edit"
+  if route != "api" and ops and case.get("options_first"):
+    # the order of the manual's synopsis and of its quick-start example: options first, then the file names
+    res1 = runner(cli_args(ops) + ["@IN", "@OUT"], text)
+    got1 = outcome(res1)
+    ctx.count("options_first_invocations")
+    if got1[0] != got[0] or (got[0] == "ok" and not same_output(m["target"], got1[1], got[1])):
+      swallowed = "arguments are required" in res1["err"]
+      ctx.violation("edit_differs", "options written BEFORE the file names (as in the manual's synopsis): %s (%s); the same options after the file names: %s" % (
+        got1[0], res1["err"].strip().split("\n")[-1][:200], got[0]), what="edit_differs", mech="options_before_file_names" if swallowed else mech)
   if err is not None:
     ctx.count("invalid_ops_checked")
     ctx.cls("invalid:" + err.split(" item")[0])
@@ -589,7 +609,7 @@ def run_case(case, ctx):
         if s.startswith("Table-Form") or s == "Variables":
           hidden += 1
           continue
-        want.append("%s:%s=%s" % (s, norm(k), v))
+        want.append("%s:%s=%s" % (s, norm(k), v.strip()))
     got_l = sorted(re.sub(r"\s+", " ", l.strip()) for l in lines)
     want_l = sorted(re.sub(r"\s+", " ", l.strip()) for l in want)
     if got_l != want_l:
